@@ -300,11 +300,11 @@ def run(ctx):
               f"Linearization.make_var({xn}.val.extract(oo.domain), {xn}.want_metric)" in src(aos.node), None, aos)
 
 
-def r03_45(ctx):
+def r03_45(ctx, rid4="R03.4", only4=False):
     m = ctx.model
     JO = "nifty.cl.operators.jax_operator"
     ES = "nifty.cl.operators.einsum"
-    ctx.rule("R03.4", "JAX wrappers: the adjoint of the Jacobian is the conjugate transpose - the transposed (vjp) function is applied "
+    ctx.rule(rid4, "JAX wrappers: the adjoint of the Jacobian is the conjugate transpose - the transposed (vjp) function is applied "
                       "to the conjugated cotangent and the result is conjugated again; the forward branch applies the function "
                       "unchanged", floor=2)
     J = m.cls(JO, "JaxLinearOperator")
@@ -317,21 +317,23 @@ def r03_45(ctx):
         sp = Spec(m, J, ap, {mn: mode}).run()
         key = f"{ap.key}::mode {mode}"
         if len(sp.returns) != 1:
-            ctx.und("R03.4", key, f"{len(sp.returns)} returns", ap)
+            ctx.und(rid4, key, f"{len(sp.returns)} returns", ap)
             continue
         e = sp.returns[0][0]
         t = src(e)
         if mode == 1:
-            ctx.check("R03.4", key + ": forward applies func to x", "self._func(" in t and "conjugate" not in t and "self._func_T" not in t
+            ctx.check(rid4, key + ": forward applies func to x", "self._func(" in t and "conjugate" not in t and "self._func_T" not in t
                       and t.startswith("makeField(self._target"), t, ap)
         else:
             inner_conj = f"self._func_T(_anyarray2jax({xn}.conjugate().val))" in t or f"self._func_T(_anyarray2jax({xn}.val.conjugate()))" in t \
                 or f"self._func_T(_anyarray2jax({xn}.conj().val))" in t
             outer_conj = t.endswith(".conjugate()") or t.endswith(".conj()")
-            ctx.check("R03.4", key + ": adjoint = conj(func_T(conj(x))) on the domain", inner_conj and outer_conj and t.startswith("makeField(self._domain"),
+            ctx.check(rid4, key + ": adjoint = conj(func_T(conj(x))) on the domain", inner_conj and outer_conj and t.startswith("makeField(self._domain"),
                       f"{t}: {'cotangent conjugated' if inner_conj else 'cotangent NOT conjugated'}, "
                       f"{'result conjugated' if outer_conj else 'result NOT conjugated (wrong for complex domains, invisible for real ones)'}", ap)
 
+    if only4:
+        return
     ctx.rule("R03.5", "MultiLinearEinsum: value and Jacobian look the factors up with the same precedence (current position first, "
                       "static fields only for keys that are not part of the input)", floor=1)
     M = m.cls(ES, "MultiLinearEinsum")
